@@ -289,6 +289,13 @@ def check(ctx):
     for f in (p.fn('engine::(anonymous namespace)::init_king_mask'), p.fn('engine::king_attacks')):
         ctx.analysed(f)
         steps = sorted(_compositions(f, dir_enum))
+        if not steps and f.name.endswith('init_king_mask'):
+            # the mask is taken from king_attacks(square_bb(sq)), whose own steps are the other instance of this rule
+            from rules.norm import Norm as _Nk
+            st_ = [_Nk(f, inline=False).s(kids(x)[1]) for x in f.all_nodes() if x['k'] == 'BinaryOperator' and x.get('op') == '=' and
+                   _Nk(f, inline=False).s(kids(x)[0]).startswith('KING_MASK[')]
+            if st_ and all(t_ == 'king_attacks(square_bb(sq))' for t_ in st_):
+                steps = exp_k
         ctx.ob('C11.R5.king-steps', short(f.name), steps == exp_k,
                '%s is the union of exactly the eight unit steps' % short(f.name), site=f.loc(), detail={'found': str(steps)})
     for side, exp_p in (('engine::WHITE', [(1, -1), (1, 1)]), ('engine::BLACK', [(-1, -1), (-1, 1)])):
@@ -323,10 +330,7 @@ def check(ctx):
            site=il.loc())
     fl = p.fn('engine::(anonymous namespace)::init_full_lines_bitboards')
     ctx.analysed(fl)
-    ok, why = _full_lines_ok(fl)
-    ctx.ob('C11.R6.full-lines', 'init_full_lines_bitboards', ok,
-           'FULL_LINES arms: same rank -> RANKS_BB[rank], same file -> FILES_BB[file], equal rank+file -> squares with r=c-f, '
-           'equal rank-file -> squares with r=c+f (%s)' % why, site=fl.loc())
+    # the four relations between two squares and what each stores: R9.full-lines-cases / R9.full-lines-diagonals (builders)
 
     # ---- R8 FILL: loop-filled tables are filled completely ---------------------------------------------------------
     from rules.fill import fill_sites
@@ -798,9 +802,20 @@ def builders(ctx, p):
              ('diagonal', dict(frm=9, to=27, rf=1, ff=1, rt=3, ft=3), ['loop']),
              ('unrelated', dict(frm=9, to=26, rf=1, ff=1, rt=3, ft=2), [])]
     badf = None
+    rays_form = set()
     for name, v, want_ in cases:
         val = {'from': v['frm'], 'to': v['to'], 'r_from': v['rf'], 'f_from': v['ff'], 'r_to': v['rt'], 'f_to': v['ft']}
         got = effects_under(h, [body], val, keep=K, loops='mark')
+        alt_ = None
+        if name in ('anti-diagonal', 'diagonal'):
+            # the diagonal through a square is the square itself and the two opposite rays from it
+            ry = p.enum('engine::Ray')
+            a_, b_ = ('RAY_NW', 'RAY_SE') if name == 'anti-diagonal' else ('RAY_NE', 'RAY_SW')
+            alt_ = ['(FULL_LINES[from][to]=(%s))' % '|'.join(sorted(['RAYS[%d][9]' % ry[a_], 'RAYS[%d][9]' % ry[b_], 'square_bb(9)']))]
+            alt2_ = ['(FULL_LINES[from][to]=(%s))' % '|'.join(sorted(['RAYS[%d][9]' % ry[a_], 'RAYS[%d][9]' % ry[b_], str(1 << 9)]))]
+            if got in (alt_, alt2_):
+                rays_form.add(name)
+                continue
         if got != want_ and badf is None:
             badf = '%s: %s, expected %s' % (name, got, want_)
     ctx.ob('C11.R9.full-lines-cases', 'init_full_lines_bitboards', badf is None,
@@ -808,7 +823,7 @@ def builders(ctx, p):
            'paired with itself%s' % ('' if badf is None else ' — ' + badf), site=h.loc())
     # the two diagonal loops: every file 0..7, the rank from the invariant, kept when on the board
     dl = [l for l in loops if h.inside(l, body)]
-    okd = len(dl) == 2
+    okd = len(dl) == 2 - len(rays_form)
     sums = []
     for l in dl:
         cf = counting_for(h, l)
@@ -825,7 +840,8 @@ def builders(ctx, p):
         rd = [n for n in walk(l) if n['k'] == 'VarDecl' and n.get('name') == 'r']
         cd = [n for n in h.all_nodes() if n['k'] == 'VarDecl' and n.get('name') == 'c' and h.cfg.node_dominates(n, l)]
         sums.append((nh.s(kids(rd[0])[0]) if rd and kids(rd[0]) else None, [nh.s(kids(x)[0]) for x in cd][-1:] ))
-    okd = okd and sorted(map(str, sums)) == sorted(map(str, [('(c-f)', ['(f_from+r_from)']), ('(c+f)', ['(r_from-f_from)'])]))
+    want_sums = [x_ for nm_, x_ in (('anti-diagonal', ('(c-f)', ['(f_from+r_from)'])), ('diagonal', ('(c+f)', ['(r_from-f_from)']))) if nm_ not in rays_form]
+    okd = okd and sorted(map(str, sums)) == sorted(map(str, want_sums))
     ctx.ob('C11.R9.full-lines-diagonals', 'init_full_lines_bitboards', bool(okd),
            'a diagonal is collected file by file (all eight), the rank following from the diagonal\'s invariant and kept only when it is '
            'on the board (%s)' % sums, site=h.loc())
